@@ -33,10 +33,11 @@ type File struct {
 }
 
 type parser struct {
-	src  string
-	pos  int
-	f    *File
-	acts int
+	src     string
+	pos     int
+	f       *File
+	acts    int
+	escaped bool // the last char() was written as an escape
 }
 
 type syntaxError struct {
@@ -464,12 +465,14 @@ func (p *parser) primary() (*ag.Expr, bool) {
 
 // char reads one (possibly escaped) character of a literal or class.
 func (p *parser) char() rune {
+	p.escaped = false
 	if p.peek() != '\\' {
 		if p.eof() {
 			p.fail("unterminated literal")
 		}
 		return p.next()
 	}
+	p.escaped = true
 	p.next()
 	if p.eof() {
 		p.fail("dangling backslash")
@@ -550,13 +553,17 @@ func (p *parser) literal() *ag.Expr {
 			p.next()
 			break
 		}
-		runes = append(runes, p.char())
+		c := p.char()
+		if q == '"' && p.escaped && isIdentStart(c) && c != '_' {
+			p.f.Grey = append(p.f.Grey, "letter written as an escape inside a case-insensitive literal")
+		}
+		runes = append(runes, c)
+	}
+	if len(runes) == 0 {
+		p.fail("empty literal")
 	}
 	p.spacing()
 	e := &ag.Expr{K: ag.Lit, Runes: runes, CI: q == '"'}
-	if len(runes) == 0 {
-		p.f.Grey = append(p.f.Grey, "empty literal")
-	}
 	if e.CI {
 		for _, r := range runes {
 			if r >= 128 && strings.ToLower(string(r)) != strings.ToUpper(string(r)) {
@@ -591,6 +598,9 @@ func (p *parser) class() *ag.Expr {
 			p.fail("']' inside [[ ]]")
 		}
 		lo := p.char()
+		if e.CI && p.escaped && isIdentStart(lo) && lo != '_' {
+			p.f.Grey = append(p.f.Grey, "letter written as an escape inside a case-insensitive class")
+		}
 		hi := lo
 		if p.peek() == '-' && !strings.HasPrefix(p.src[p.pos+1:], closer) {
 			p.next()
@@ -615,7 +625,7 @@ func (p *parser) class() *ag.Expr {
 		e.Items = append(e.Items, ag.Item{Lo: lo, Hi: hi})
 	}
 	if len(e.Items) == 0 {
-		p.f.Grey = append(p.f.Grey, "empty class")
+		p.fail("empty class")
 	}
 	p.spacing()
 	return e
